@@ -3,9 +3,11 @@ From Verif Require Import Paging.
 Import ListNotations.
 Local Open Scope Z_scope.
 
-(* paging states the future will still send, in order *)
-Definition pstates (s : rset) : list Z :=
-  match more s with Some (st, srv) => st :: states srv | None => [] end.
+(* the requests (with the paging state each must carry) still to be sent, given that failed requests are repeated *)
+Definition pstates (s : rset) : list (option Z) :=
+  match more s with Some (st, srv) => expected_reqs (Some st) srv | None => [] end.
+
+Definition more_size (s : rset) : nat := match more s with Some (_, srv) => (npages srv + nfails srv)%nat | None => O end.
 
 Lemma reqs_app a b : reqs (a ++ b) = reqs a ++ reqs b.
 Proof. induction a as [|[st|v] a IH]; cbn; [reflexivity| rewrite IH; reflexivity | exact IH]. Qed.
@@ -13,192 +15,258 @@ Proof. induction a as [|[st|v] a IH]; cbn; [reflexivity| rewrite IH; reflexivity
 Lemma reqs_ret o v : reqs (o ++ [Ret v]) = reqs o.
 Proof. rewrite reqs_app. cbn. apply app_nil_r. Qed.
 
+Lemma expected_nofail : forall srv cur, nfails srv = O -> expected_reqs cur srv = cur :: map Some (states srv).
+Proof.
+  induction srv as [rs|rs st rest IH|rest IH]; intros cur H; cbn in *; try discriminate; [reflexivity|].
+  rewrite IH by exact H. reflexivity.
+Qed.
+
+Lemma expected_length : forall srv cur, length (expected_reqs cur srv) = (npages srv + nfails srv)%nat.
+Proof. induction srv; intros c; cbn; rewrite ?IHsrv; lia. Qed.
+
+Lemma all_rows_concat srv : all_rows srv = concat (pages srv).
+Proof. induction srv as [rs|rs st rest IH|rest IH]; cbn; [symmetry; apply app_nil_r | rewrite IH; reflexivity | exact IH]. Qed.
+
+Lemma states_length srv : S (length (states srv)) = npages srv.
+Proof. induction srv; cbn; congruence. Qed.
+
 (* ---------- pull / next ---------- *)
-Lemma pull_spec : forall srv lm st,
-  let '(s', o, v) := pull lm st srv in
-  reqs o ++ map Some (pstates s') = Some st :: map Some (states srv)
+Lemma pull_spec : forall srv lm c st,
+  let '(s', o, v) := pull lm c st srv in
+  reqs o ++ pstates s' = expected_reqs (Some st) srv
   /\ lmode s' = lm /\ (exists l, it s' = Some l)
-  /\ match all_rows srv with
-     | [] => v = VStop /\ pending_rows s' = [] /\ more s' = None
-     | r :: rest => v = VRow r /\ pending_rows s' = rest
+  /\ match v with
+     | VStop => all_rows srv = [] /\ pending_rows s' = [] /\ more s' = None /\ nfails srv = O
+     | VRow r => all_rows srv = r :: pending_rows s' /\ pending_fails s' = nfails srv
+     | VError => pending_rows s' = all_rows srv /\ S (pending_fails s') = nfails srv
+     | _ => False
      end.
 Proof.
-  induction srv as [rs|rs st' rest IH]; intros lm st.
-  - destruct rs as [|r rs]; cbn; repeat split; eauto. unfold pending_rows; cbn. apply app_nil_r.
+  induction srv as [rs|rs st' rest IH|rest IH]; intros lm c st.
+  - destruct rs as [|r rs]; cbn; repeat split; eauto. unfold pending_rows; cbn. rewrite app_nil_r. reflexivity.
   - destruct rs as [|r rs].
-    + cbn [pull]. specialize (IH lm st'). destruct (pull lm st' rest) as [[s' o] v].
-      destruct IH as (H1 & H2 & H3 & H4). cbn [all_rows app states map reqs].
+    + cbn [pull]. specialize (IH lm [] st'). destruct (pull lm [] st' rest) as [[s' o] v].
+      destruct IH as (H1 & H2 & H3 & H4). cbn [all_rows app states map reqs expected_reqs nfails].
       repeat split; try assumption. cbn. rewrite H1. reflexivity.
     + cbn. repeat split; eauto.
+  - cbn. repeat split; eauto.
 Qed.
 
 Lemma next_reqs s :
-  let '(s', o, v) := next s in reqs o ++ map Some (pstates s') = map Some (pstates s) /\ lmode s' = lmode s.
+  let '(s', o, v) := next s in reqs o ++ pstates s' = pstates s /\ lmode s' = lmode s.
 Proof.
   unfold next. destruct (it s) as [[|r l]|] eqn:Hit.
   - destruct (more s) as [[st srv]|] eqn:Hm.
-    + pose proof (pull_spec srv (lmode s) st) as P. destruct (pull (lmode s) st srv) as [[s' o] v].
+    + pose proof (pull_spec srv (lmode s) (cur s) st) as P. destruct (pull (lmode s) (cur s) st srv) as [[s' o] v].
       destruct P as (H1 & H2 & _). split; [|assumption]. rewrite H1. unfold pstates. rewrite Hm. reflexivity.
     + cbn. unfold pstates. rewrite Hm. cbn. auto.
   - cbn. unfold pstates. cbn. auto.
   - cbn. auto.
 Qed.
 
-(* next() on an active iterator: yields the head of the pending rows, or stops when none is pending *)
+(* next() on an active iterator *)
 Lemma next_rows s l : it s = Some l ->
   let '(s', o, v) := next s in
   (exists l', it s' = Some l')
-  /\ match pending_rows s with
-     | [] => v = VStop /\ pending_rows s' = [] /\ more s' = None
-     | r :: rest => v = VRow r /\ pending_rows s' = rest
+  /\ match v with
+     | VStop => pending_rows s = [] /\ pending_rows s' = [] /\ more s' = None /\ pending_fails s = O
+     | VRow r => pending_rows s = r :: pending_rows s' /\ pending_fails s' = pending_fails s
+     | VError => pending_rows s' = pending_rows s /\ S (pending_fails s') = pending_fails s
+     | _ => False
      end.
 Proof.
-  intros Hit. unfold next, pending_rows at 1. rewrite Hit. destruct l as [|r l].
+  intros Hit. unfold next. rewrite Hit. destruct l as [|r l].
   - destruct (more s) as [[st srv]|] eqn:Hm.
-    + pose proof (pull_spec srv (lmode s) st) as P. destruct (pull (lmode s) st srv) as [[s' o] v].
-      destruct P as (_ & _ & H3 & H4). cbn [app]. split; assumption.
-    + cbn. split; [eauto|]. repeat split.
-  - cbn. split; [eauto|]. split; [reflexivity|]. unfold pending_rows. cbn. reflexivity.
+    + pose proof (pull_spec srv (lmode s) (cur s) st) as P. destruct (pull (lmode s) (cur s) st srv) as [[s' o] v].
+      destruct P as (_ & _ & H3 & H4). split; [assumption|].
+      assert (PR : pending_rows s = all_rows srv) by (unfold pending_rows; rewrite Hit, Hm; reflexivity).
+      assert (PF : pending_fails s = nfails srv) by (unfold pending_fails; rewrite Hm; reflexivity).
+      rewrite PR, PF. exact H4.
+    + cbn. split; [eauto|]. unfold pending_rows, pending_fails. rewrite Hit, Hm. cbn. repeat split.
+  - cbn. split; [eauto|]. unfold pending_rows, pending_fails. rewrite Hit. cbn. split; reflexivity.
 Qed.
 
-(* ---------- drain = list()/for ---------- *)
+(* ---------- list()/for (stops at an exception) and continued iteration (goes on after it) ---------- *)
 Lemma drain_reqs : forall fuel s acc o,
-  let '(s', o', r) := drain fuel s acc o in
-  reqs o' ++ map Some (pstates s') = reqs o ++ map Some (pstates s) /\ lmode s' = lmode s.
+  let '(s', o', r) := drain fuel s acc o in reqs o' ++ pstates s' = reqs o ++ pstates s /\ lmode s' = lmode s.
 Proof.
   induction fuel as [|f IH]; intros s acc o; cbn [drain]; [auto|].
   pose proof (next_reqs s) as N. destruct (next s) as [[s1 o1] v]. destruct N as [N1 N2].
-  assert (E : reqs (o ++ o1) ++ map Some (pstates s1) = reqs o ++ map Some (pstates s))
-    by (rewrite reqs_app, <- app_assoc, N1; reflexivity).
+  assert (E : reqs (o ++ o1) ++ pstates s1 = reqs o ++ pstates s) by (rewrite reqs_app, <- app_assoc, N1; reflexivity).
   destruct v; try (split; assumption).
   specialize (IH s1 (acc ++ [z]) (o ++ o1)). destruct (drain f s1 (acc ++ [z]) (o ++ o1)) as [[s2 o2] r].
   destruct IH as [I1 I2]. split; congruence.
 Qed.
 
-Lemma drain_rows : forall fuel s acc o l, it s = Some l -> (length (pending_rows s) < fuel)%nat ->
-  let '(s', o', r) := drain fuel s acc o in
-  r = Some (acc ++ pending_rows s) /\ more s' = None /\ it s' = Some [] \/ False.
+Lemma drain_retry_reqs : forall fuel s acc o,
+  let '(s', o', r) := drain_retry fuel s acc o in reqs o' ++ pstates s' = reqs o ++ pstates s /\ lmode s' = lmode s.
 Proof.
-  induction fuel as [|f IH]; intros s acc o l Hit Hf; [lia|]. cbn [drain].
-  pose proof (next_rows s l Hit) as N. destruct (next s) as [[s1 o1] v]. destruct N as [[l' Hl'] N].
-  destruct (pending_rows s) as [|r rest] eqn:Hp.
-  - destruct N as (-> & Hp1 & Hm1). left. rewrite app_nil_r. repeat split; try assumption.
-    unfold pending_rows in Hp1. rewrite Hl', Hm1, app_nil_r in Hp1. congruence.
-  - destruct N as (-> & Hp1). cbn [length] in Hf.
-    specialize (IH s1 (acc ++ [r]) (o ++ o1) l' Hl'). rewrite Hp1 in IH. specialize (IH ltac:(lia)).
-    destruct (drain f s1 (acc ++ [r]) (o ++ o1)) as [[s2 o2] r2].
-    destruct IH as [(I1 & I2 & I3)|[]]. left. rewrite <- app_assoc in I1. auto.
+  induction fuel as [|f IH]; intros s acc o; cbn [drain_retry]; [auto|].
+  pose proof (next_reqs s) as N. destruct (next s) as [[s1 o1] v]. destruct N as [N1 N2].
+  assert (E : reqs (o ++ o1) ++ pstates s1 = reqs o ++ pstates s) by (rewrite reqs_app, <- app_assoc, N1; reflexivity).
+  destruct v; try (split; assumption).
+  - specialize (IH s1 (acc ++ [z]) (o ++ o1)). destruct (drain_retry f s1 (acc ++ [z]) (o ++ o1)) as [[s2 o2] r].
+    destruct IH as [I1 I2]. split; congruence.
+  - specialize (IH s1 acc (o ++ o1)). destruct (drain_retry f s1 acc (o ++ o1)) as [[s2 o2] r].
+    destruct IH as [I1 I2]. split; congruence.
 Qed.
 
-Lemma list_self_spec s : lmode s = false ->
-  let '(s', o, r) := list_self s in
-  r = Some (cur s ++ match more s with Some (_, srv) => all_rows srv | None => [] end)
-  /\ reqs o = map Some (pstates s) /\ more s' = None /\ lmode s' = false.
+Lemma drain_rows : forall fuel s acc o l, it s = Some l -> pending_fails s = O -> (length (pending_rows s) < fuel)%nat ->
+  let '(s', o', r) := drain fuel s acc o in
+  r = VRows (acc ++ pending_rows s) /\ more s' = None /\ it s' = Some [].
 Proof.
-  intros Hl. unfold list_self, iter_. rewrite Hl.
+  induction fuel as [|f IH]; intros s acc o l Hit Hnf Hf; [lia|]. cbn [drain].
+  pose proof (next_rows s l Hit) as N. destruct (next s) as [[s1 o1] v]. destruct N as [[l' Hl'] N].
+  destruct v; try contradiction.
+  - destruct N as (Hp & Hpf). rewrite Hp in *. cbn [length] in Hf.
+    specialize (IH s1 (acc ++ [z]) (o ++ o1) l' Hl' ltac:(congruence) ltac:(lia)).
+    destruct (drain f s1 (acc ++ [z]) (o ++ o1)) as [[s2 o2] r2].
+    destruct IH as (I1 & I2 & I3). rewrite <- app_assoc in I1. auto.
+  - destruct N as (Hp & Hp1 & Hm1 & _). rewrite Hp, app_nil_r. repeat split; try assumption.
+    unfold pending_rows in Hp1. rewrite Hl', Hm1, app_nil_r in Hp1. congruence.
+  - destruct N as (_ & N). lia.
+Qed.
+
+Lemma drain_retry_rows : forall fuel s acc o l, it s = Some l -> (length (pending_rows s) + pending_fails s < fuel)%nat ->
+  let '(s', o', r) := drain_retry fuel s acc o in
+  r = VRows (acc ++ pending_rows s) /\ more s' = None /\ it s' = Some [].
+Proof.
+  induction fuel as [|f IH]; intros s acc o l Hit Hf; [lia|]. cbn [drain_retry].
+  pose proof (next_rows s l Hit) as N. destruct (next s) as [[s1 o1] v]. destruct N as [[l' Hl'] N].
+  destruct v; try contradiction.
+  - destruct N as (Hp & Hpf). rewrite Hp in *. cbn [length] in Hf.
+    specialize (IH s1 (acc ++ [z]) (o ++ o1) l' Hl' ltac:(lia)).
+    destruct (drain_retry f s1 (acc ++ [z]) (o ++ o1)) as [[s2 o2] r2].
+    destruct IH as (I1 & I2 & I3). rewrite <- app_assoc in I1. auto.
+  - destruct N as (Hp & Hp1 & Hm1 & _). rewrite Hp, app_nil_r. repeat split; try assumption.
+    unfold pending_rows in Hp1. rewrite Hl', Hm1, app_nil_r in Hp1. congruence.
+  - destruct N as (Hp & Hpf).
+    specialize (IH s1 acc (o ++ o1) l' Hl' ltac:(rewrite Hp; lia)).
+    destruct (drain_retry f s1 acc (o ++ o1)) as [[s2 o2] r2]. rewrite Hp in IH. exact IH.
+Qed.
+
+Definition rest_rows (s : rset) : list Z := match more s with Some (_, srv) => all_rows srv | None => [] end.
+
+Lemma list_self_spec s : lmode s = false -> pending_fails s = O ->
+  let '(s', o, r) := list_self s in
+  r = VRows (cur s ++ rest_rows s) /\ reqs o = pstates s /\ more s' = None /\ lmode s' = false.
+Proof.
+  intros Hl Hnf. unfold list_self, iter_. rewrite Hl.
   set (s1 := mkRS (cur s) (Some (cur s)) false (more s)).
-  pose proof (drain_rows (S (length (pending_rows s1))) s1 [] [] (cur s) eq_refl ltac:(lia)) as D.
+  pose proof (drain_rows (S (length (pending_rows s1))) s1 [] [] (cur s) eq_refl Hnf ltac:(lia)) as D.
   pose proof (drain_reqs (S (length (pending_rows s1))) s1 [] []) as R.
   destruct (drain (S (length (pending_rows s1))) s1 [] []) as [[s' o] r].
-  destruct D as [(D1 & D2 & D3)|[]]. destruct R as [R1 R2].
+  destruct D as (D1 & D2 & D3). destruct R as [R1 R2].
   split; [rewrite D1; reflexivity|]. split; [|split; [assumption|]].
   - unfold pstates in R1 at 1. rewrite D2 in R1. cbn in R1. rewrite app_nil_r in R1. exact R1.
   - rewrite R2. reflexivity.
 Qed.
 
-Lemma init_spec srv : let '(s0, o0) := init srv in
-  lmode s0 = false /\ it s0 = None /\ o0 = [Req None] /\ pstates s0 = states srv
-  /\ cur s0 ++ match more s0 with Some (_, r) => all_rows r | None => [] end = all_rows srv.
-Proof. destruct srv; cbn; repeat split; auto using app_nil_r. Qed.
-
-(* ---------- the three readings ---------- *)
-Lemma iterate_spec srv : iterate srv = (fst (iterate srv), Some (all_rows srv))
-  /\ reqs (fst (iterate srv)) = None :: map Some (states srv).
+Lemma init_spec : forall srv, let '(s0, o0) := init srv in
+  lmode s0 = false /\ it s0 = None /\ reqs o0 ++ pstates s0 = expected_reqs None srv
+  /\ cur s0 ++ rest_rows s0 = all_rows srv /\ True
+  /\ (pending_fails s0 <= nfails srv)%nat /\ (more_size s0 < npages srv + nfails srv)%nat
+  /\ (nfails srv = O -> o0 = [Req None]).
 Proof.
-  unfold iterate. pose proof (init_spec srv) as I. destruct (init srv) as [s0 o0].
-  destruct I as (I1 & I2 & -> & I4 & I5).
-  pose proof (list_self_spec s0 I1) as L. destruct (list_self s0) as [[s' o] r].
-  destruct L as (-> & L2 & _). cbn [fst]. rewrite I5. split; [reflexivity|].
-  cbn. rewrite L2, I4. reflexivity.
+  induction srv as [rs|rs st rest IH|rest IH]; cbn.
+  - unfold more_size, rest_rows, pstates, pending_fails; cbn. repeat split; auto using app_nil_r; lia.
+  - unfold more_size, rest_rows, pstates, pending_fails; cbn. repeat split; auto; lia.
+  - destruct (init rest) as [s o]. destruct IH as (A & B & C & D & E & F & G & H). cbn.
+    repeat split; try assumption; try lia; try discriminate. rewrite C. reflexivity.
+Qed.
+
+(* ---------- the readings ---------- *)
+Lemma iterate_spec srv : nfails srv = O ->
+  snd (iterate srv) = VRows (all_rows srv) /\ reqs (fst (iterate srv)) = None :: map Some (states srv).
+Proof.
+  intros Hnf. unfold iterate. pose proof (init_spec srv) as I. destruct (init srv) as [s0 o0].
+  destruct I as (I1 & I2 & I3 & I4 & _ & I6 & _ & I8).
+  pose proof (list_self_spec s0 I1 ltac:(lia)) as L. destruct (list_self s0) as [[s' o] r].
+  destruct L as (-> & L2 & _). cbn [fst snd]. rewrite I4. split; [reflexivity|].
+  rewrite reqs_app, L2, I3. apply expected_nofail, Hnf.
+Qed.
+
+Lemma iterate_retry_spec srv :
+  snd (iterate_retry srv) = VRows (all_rows srv) /\ reqs (fst (iterate_retry srv)) = expected_reqs None srv.
+Proof.
+  unfold iterate_retry. pose proof (init_spec srv) as I. destruct (init srv) as [s0 o0].
+  destruct I as (I1 & I2 & I3 & I4 & _). unfold iter_. rewrite I1.
+  set (s1 := mkRS (cur s0) (Some (cur s0)) false (more s0)).
+  pose proof (drain_retry_rows (S (length (pending_rows s1) + pending_fails s1)) s1 [] [] (cur s0) eq_refl ltac:(lia)) as D.
+  pose proof (drain_retry_reqs (S (length (pending_rows s1) + pending_fails s1)) s1 [] []) as R.
+  destruct (drain_retry (S (length (pending_rows s1) + pending_fails s1)) s1 [] []) as [[s' o] r].
+  destruct D as (D1 & D2 & D3). destruct R as [R1 _]. cbn [fst snd]. split.
+  - rewrite D1. cbn [app]. unfold pending_rows, s1. cbn. fold (rest_rows s0). rewrite I4. reflexivity.
+  - rewrite reqs_app. unfold pstates in R1 at 1. rewrite D2 in R1. cbn in R1. rewrite app_nil_r in R1. rewrite R1. exact I3.
 Qed.
 
 Lemma materialise_spec srv : materialise srv = iterate srv.
 Proof.
   unfold materialise, iterate. pose proof (init_spec srv) as I. destruct (init srv) as [s0 o0].
-  destruct I as (I1 & I2 & -> & I4 & I5). unfold enter_list_mode. rewrite I1, I2.
-  pose proof (list_self_spec s0 I1) as L. destruct (list_self s0) as [[s' o] r].
-  destruct L as (-> & _). reflexivity.
+  destruct I as (I1 & I2 & _). unfold enter_list_mode. rewrite I1, I2.
+  destruct (list_self s0) as [[s' o] r]. destruct r; reflexivity.
 Qed.
 
-Lemma fetch_reqs s : let '(s', o) := fetch s in
-  reqs o ++ map Some (pstates s') = map Some (pstates s) /\ lmode s' = lmode s.
+Lemma fetch_reqs s : let '(s', o, v) := fetch s in reqs o ++ pstates s' = pstates s /\ lmode s' = lmode s.
 Proof.
   unfold fetch. destruct (more s) as [[st srv]|] eqn:Hm.
   - destruct srv; cbn; unfold pstates; rewrite Hm; cbn; auto.
   - cbn. unfold pstates. rewrite Hm. auto.
 Qed.
 
-Lemma manual_loop_spec : forall srv fuel s o, (npages srv <= fuel)%nat ->
-  more s = match srv with Last _ => None | More _ st rest => Some (st, rest) end ->
-  cur s = match srv with Last rs => rs | More rs _ _ => rs end ->
-  exists o', manual_loop fuel s o = (o ++ o', Some (all_rows srv)) /\ reqs o' = map Some (states srv).
+Lemma manual_loop_spec : forall srv fuel s o st, more s = Some (st, srv) -> (npages srv + nfails srv <= fuel)%nat ->
+  exists o', manual_loop fuel s o = (o ++ o', Some (cur s ++ all_rows srv)) /\ reqs o' = expected_reqs (Some st) srv.
 Proof.
-  induction srv as [rs|rs st rest IH]; intros fuel s o Hf Hm Hc.
-  - exists []. destruct fuel; cbn; unfold has_more; rewrite Hm, Hc, app_nil_r; split; reflexivity.
-  - destruct fuel as [|f]; [cbn in Hf; lia|]. cbn [manual_loop]. unfold has_more. rewrite Hm.
-    unfold fetch. rewrite Hm.
-    destruct (receive rest) as [rs' m'] eqn:Hr.
-    specialize (IH f (mkRS rs' (it s) (lmode s) m') (o ++ [Req (Some st)]) ltac:(cbn in Hf; lia)).
-    destruct IH as (o' & E & R).
-    + destruct rest; cbn in Hr; inversion Hr; reflexivity.
-    + destruct rest; cbn in Hr; inversion Hr; reflexivity.
-    + rewrite E. exists (Req (Some st) :: o'). rewrite <- app_assoc. cbn. rewrite Hc, R. split; reflexivity.
+  induction srv as [rs|rs st' rest IH|rest IH]; intros fuel s o st Hm Hf; (destruct fuel as [|f]; [cbn in Hf; lia|]);
+    cbn [manual_loop]; unfold has_more, fetch; rewrite Hm.
+  - exists [Req (Some st)]. destruct f; cbn; split; reflexivity.
+  - destruct (IH f (mkRS rs (it s) (lmode s) (Some (st', rest))) (o ++ [Req (Some st)]) st' eq_refl ltac:(cbn in Hf; lia)) as (o' & E & R).
+    rewrite E. exists (Req (Some st) :: o'). rewrite <- app_assoc. cbn. rewrite R. split; reflexivity.
+  - destruct (IH f (mkRS (cur s) (it s) (lmode s) (Some (st, rest))) (o ++ [Req (Some st)]) st eq_refl ltac:(cbn in Hf; lia)) as (o' & E & R).
+    rewrite E. exists (Req (Some st) :: o'). rewrite <- app_assoc. cbn. rewrite R. split; reflexivity.
 Qed.
 
-Lemma manual_spec srv : exists o, manual srv = (o, Some (all_rows srv)) /\ reqs o = None :: map Some (states srv).
+Lemma manual_spec srv : exists o, manual srv = (o, Some (all_rows srv)) /\ reqs o = expected_reqs None srv.
 Proof.
-  unfold manual. destruct (init srv) as [s0 o0] eqn:Hi.
-  assert (o0 = [Req None]) by (destruct srv; cbn in Hi; inversion Hi; reflexivity). subst o0.
-  destruct (manual_loop_spec srv (npages srv) s0 [Req None] (le_n _)) as (o' & E & R).
-  - destruct srv; cbn in Hi; inversion Hi; reflexivity.
-  - destruct srv; cbn in Hi; inversion Hi; reflexivity.
-  - exists ([Req None] ++ o'). split; [assumption|]. cbn. rewrite R. reflexivity.
+  unfold manual. pose proof (init_spec srv) as I. destruct (init srv) as [s0 o0].
+  destruct I as (_ & _ & I3 & I4 & _ & _ & I7 & _). unfold pstates, rest_rows, more_size in *.
+  destruct (more s0) as [[st r]|] eqn:Hm.
+  - destruct (manual_loop_spec r (npages srv + nfails srv) s0 o0 st Hm ltac:(lia)) as (o' & E & R).
+    exists (o0 ++ o'). rewrite E, I4. split; [reflexivity|]. rewrite reqs_app, R. exact I3.
+  - exists o0. rewrite app_nil_r in I3, I4. split; [|exact I3].
+    destruct (npages srv + nfails srv)%nat; cbn; unfold has_more; rewrite Hm, I4; reflexivity.
 Qed.
 
-(* ---------- any access pattern: requests are a prefix of the expected state sequence ---------- *)
-Lemma enter_list_mode_reqs s : let '(s', o, e) := enter_list_mode s in
-  reqs o ++ map Some (pstates s') = map Some (pstates s).
+(* ---------- any access pattern: requests are a prefix of the expected sequence ---------- *)
+Lemma list_self_reqs s : let '(s', o, r) := list_self s in reqs o ++ pstates s' = pstates s.
+Proof.
+  unfold list_self, iter_. destruct (lmode s) eqn:Hl; [reflexivity|].
+  set (s1 := mkRS (cur s) (Some (cur s)) false (more s)).
+  pose proof (drain_reqs (S (length (pending_rows s1))) s1 [] []) as R.
+  destruct (drain (S (length (pending_rows s1))) s1 [] []) as [[s' o] r]. destruct R as [R _]. exact R.
+Qed.
+
+Lemma enter_list_mode_reqs s : let '(s', o, e) := enter_list_mode s in reqs o ++ pstates s' = pstates s.
 Proof.
   unfold enter_list_mode. destruct (lmode s) eqn:Hl; [reflexivity|].
   destruct (it s); [reflexivity|].
-  pose proof (list_self_spec s Hl) as L. destruct (list_self s) as [[s1 o] r].
-  destruct L as (-> & L2 & L3 & _). unfold pstates at 1. cbn [more]. rewrite L3, L2. apply app_nil_r.
+  pose proof (list_self_reqs s) as L. destruct (list_self s) as [[s1 o] r]. destruct r; exact L.
 Qed.
 
-Lemma list_self_reqs s : let '(s', o, r) := list_self s in
-  reqs o ++ map Some (pstates s') = map Some (pstates s).
-Proof.
-  destruct (lmode s) eqn:Hl.
-  - unfold list_self. rewrite Hl. reflexivity.
-  - pose proof (list_self_spec s Hl) as L. destruct (list_self s) as [[s1 o] r].
-    destruct L as (_ & L2 & L3 & _). unfold pstates at 1. rewrite L3, L2. apply app_nil_r.
-Qed.
-
-Lemma step_reqs s op : let '(s', o) := step s op in reqs o ++ map Some (pstates s') = map Some (pstates s).
+Lemma step_reqs s op : let '(s', o) := step s op in reqs o ++ pstates s' = pstates s.
 Proof.
   destruct op; cbn [step]; try reflexivity.
   - unfold iter_. destruct (lmode s); reflexivity.
   - pose proof (next_reqs s) as N. destruct (next s) as [[s' o] v]. rewrite reqs_ret. apply N.
-  - pose proof (fetch_reqs s) as N. destruct (fetch s) as [s' o]. rewrite reqs_ret. apply N.
+  - pose proof (fetch_reqs s) as N. destruct (fetch s) as [[s' o] v]. rewrite reqs_ret. apply N.
   - pose proof (enter_list_mode_reqs s) as N. destruct (enter_list_mode s) as [[s' o] [e|]]; rewrite reqs_ret; exact N.
   - pose proof (enter_list_mode_reqs s) as N. destruct (enter_list_mode s) as [[s' o] [e|]]; rewrite reqs_ret; exact N.
   - pose proof (list_self_reqs s) as N. destruct (list_self s) as [[s' o] r]. rewrite reqs_ret. exact N.
 Qed.
 
-Lemma run_state_reqs : forall ops s, let '(s', o) := run_state s ops in
-  reqs o ++ map Some (pstates s') = map Some (pstates s).
+Lemma run_state_reqs : forall ops s, let '(s', o) := run_state s ops in reqs o ++ pstates s' = pstates s.
 Proof.
-  induction ops as [|op ops IH]; intros s; cbn [run_state]; [reflexivity|].
+  induction ops as [|op ops IH]; intros s; cbn [run_state]; [apply app_nil_r || reflexivity|].
   pose proof (step_reqs s op) as S1. destruct (step s op) as [s1 o1].
   specialize (IH s1). destruct (run_state s1 ops) as [s2 o2].
   rewrite reqs_app, <- app_assoc, IH. exact S1.
@@ -206,41 +274,37 @@ Qed.
 
 Lemma any_pattern_prefix srv ops :
   let '(s0, o0) := init srv in let '(s', o) := run_state s0 ops in
-  reqs (o0 ++ o) ++ map Some (pstates s') = None :: map Some (states srv).
+  reqs (o0 ++ o) ++ pstates s' = expected_reqs None srv.
 Proof.
-  pose proof (init_spec srv) as I. destruct (init srv) as [s0 o0]. destruct I as (_ & _ & -> & I4 & _).
+  pose proof (init_spec srv) as I. destruct (init srv) as [s0 o0]. destruct I as (_ & _ & I3 & _).
   pose proof (run_state_reqs ops s0) as R. destruct (run_state s0 ops) as [s' o].
-  cbn. rewrite R, I4. reflexivity.
+  rewrite reqs_app, <- app_assoc, R. exact I3.
 Qed.
 
-Lemma states_length srv : S (length (states srv)) = npages srv.
-Proof. induction srv; cbn; congruence. Qed.
-
-Lemma all_rows_concat srv : all_rows srv = concat (pages srv).
-Proof. induction srv as [rs|rs st rest IH]; cbn; [symmetry; apply app_nil_r | rewrite IH; reflexivity]. Qed.
-
-(* getitem / eq after materialisation *)
-Lemma enter_list_mode_init srv : let '(s0, _) := init srv in
+(* getitem / eq after materialisation (no failing request) *)
+Lemma enter_list_mode_init srv : nfails srv = O -> let '(s0, _) := init srv in
   exists s1 o, enter_list_mode s0 = (s1, o, None) /\ cur s1 = all_rows srv /\ reqs o = map Some (states srv)
   /\ lmode s1 = true /\ more s1 = None.
 Proof.
-  pose proof (init_spec srv) as I. destruct (init srv) as [s0 o0]. destruct I as (I1 & I2 & _ & I4 & I5).
+  intros Hnf. pose proof (init_spec srv) as I. destruct (init srv) as [s0 o0].
+  destruct I as (I1 & I2 & I3 & I4 & _ & I6 & _ & I8).
   unfold enter_list_mode. rewrite I1, I2.
-  pose proof (list_self_spec s0 I1) as L. destruct (list_self s0) as [[s' o] r].
-  destruct L as (-> & L2 & L3 & _). eexists _, _. split; [reflexivity|]. cbn. rewrite I5, L2, I4. auto.
+  pose proof (list_self_spec s0 I1 ltac:(lia)) as L. destruct (list_self s0) as [[s' o] r].
+  destruct L as (-> & L2 & L3 & _). eexists _, _. split; [reflexivity|]. cbn. rewrite I4. repeat split; try assumption.
+  rewrite (I8 Hnf) in I3. cbn in I3. rewrite (expected_nofail srv None Hnf) in I3. rewrite L2. congruence.
 Qed.
 
-Lemma getitem_spec srv i : let '(s0, _) := init srv in
+Lemma getitem_spec srv i : nfails srv = O -> let '(s0, _) := init srv in
   exists o, snd (step s0 (OGetItem i)) = o ++ [Ret (py_getitem (all_rows srv) i)] /\ reqs o = map Some (states srv).
 Proof.
-  pose proof (enter_list_mode_init srv) as E. destruct (init srv) as [s0 o0].
+  intros Hnf. pose proof (enter_list_mode_init srv Hnf) as E. destruct (init srv) as [s0 o0].
   destruct E as (s1 & o & E & C & R & _). cbn [step]. rewrite E. cbn. rewrite C. eauto.
 Qed.
 
-Lemma eq_spec srv other : let '(s0, _) := init srv in
+Lemma eq_spec srv other : nfails srv = O -> let '(s0, _) := init srv in
   exists o, snd (step s0 (OEq other)) = o ++ [Ret (VBool (zlist_eqb (all_rows srv) other))] /\ reqs o = map Some (states srv).
 Proof.
-  pose proof (enter_list_mode_init srv) as E. destruct (init srv) as [s0 o0].
+  intros Hnf. pose proof (enter_list_mode_init srv Hnf) as E. destruct (init srv) as [s0 o0].
   destruct E as (s1 & o & E & C & R & _). cbn [step]. rewrite E. cbn. rewrite C. eauto.
 Qed.
 
